@@ -16,11 +16,12 @@ import (
 )
 
 type oidWorld struct {
-	p        *Program
-	advances []*ssa.Store
-	advFns   map[*ssa.Function]bool // calling one of these advances the counter
-	ctrOwner string                 // the struct type that holds the counter, and the counter's field
-	ctrField string
+	p            *Program
+	advances     []*ssa.Store
+	advFns       map[*ssa.Function]bool // calling one of these advances the counter
+	ctrOwner     string                 // the struct type that holds the counter, and the counter's field
+	ctrField     string
+	copyAdvances []*ssa.Store // increments of a by-value copy of the counter (lost when the method returns)
 }
 
 func (p *Program) oid() *oidWorld {
@@ -89,6 +90,15 @@ func (p *Program) oid() *oidWorld {
 				return
 			}
 			if t, name, _, ok := fieldOf(st.Addr); ok && name == w.ctrField && typeName(t) == w.ctrOwner {
+				// the session's counter, not a copy of it: a method with a value receiver increments its own copy
+				if root, _ := accessPath(st.Addr); root != nil {
+					if al, isLocal := root.(*ssa.Alloc); isLocal && !al.Heap {
+						if _, isStruct := derefType(al.Type()).Underlying().(*types.Struct); isStruct {
+							w.copyAdvances = append(w.copyAdvances, st)
+							return
+						}
+					}
+				}
 				w.advances = append(w.advances, st)
 				w.advFns[fn] = true
 			}
